@@ -239,5 +239,5 @@ func TestC07(t *testing.T) {
 	rec.Extra["rule"] = "rapid-generated histories (model-based: the model of a reused VM is a fresh VM): a pool of 4-12 programs (generated typed programs; programs failing midway inside nested loops by panicking environment calls, index errors, division by zero; allocating programs; programs calling environment functions whose result depends on the bound environment value), 2-4 environment values, a memory budget in {200, 500, 1e6} and 2-40 (thorough 2-400) runs on one vm.VM; after every run the result, failure message, call log, stack and scope are compared with a fresh VM, and the six most recent results are re-inspected for later modification. Non-trivial: a run follows a failed run, or the history has >= 4 runs; distinct by the whole history."
 	rec.Extra["assumptions"] = []string{"vm.MemoryBudget is set for the whole history and restored; single goroutine", "the history is generated as a value (program pool, environment pool, list of steps) so that rapid shrinks it as one value and the replay file re-runs it without the library"}
 	rec.Extra["floor"] = 0.2
-	core.RunRapid(t, rec, "random", cfg.N(6000, 100000), func(rt *rapid.T) *core.Case { return genC07(rt, cfg) })
+	core.RunRapid(t, rec, "random", cfg.N(6000, 25000), func(rt *rapid.T) *core.Case { return genC07(rt, cfg) })
 }
